@@ -1,6 +1,7 @@
 import WebAuthnModel.Spec.Attestation
 import WebAuthnModel.Theorems.C12
 import WebAuthnModel.Theorems.C08
+import WebAuthnModel.Proofs.JwsLemmas
 /-
   C04 — each attestation statement verifier accepts exactly when the requirements of its format hold
   (and C05: the attestation type / trust path reported).  For every environment.
@@ -451,35 +452,8 @@ theorem apple_iff (env : Prog.Env) (o : AttObj) (h : Bytes) (res : Result) :
 /-! ### android-safetynet -/
 
 theorem safetyNet_iff (env : Prog.Env) (o : AttObj) (h : Bytes) (res : Result) :
-    Prog.run env (verifySafetyNet o h) = some res ↔ SafetyNetOK env o h res := by
-  constructor
-  · intro hr
-    simp only [verifySafetyNet] at hr
-    split at hr
-    · simp at hr
-    next raw hraw =>
-      simp only [Prog.run_bind, Prog.run_query] at hr
-      split at hr
-      next v hv =>
-        simp only [Prog.run_bind, run_ite, Prog.run_pure, run_sha256] at hr
-        split at hr
-        · cases hr
-        next h1 =>
-          split at hr
-          · cases hr
-          next h2 =>
-            split at hr
-            · cases hr
-            next h3 =>
-              split at hr
-              · cases hr
-              next h4 =>
-                cases hr
-                simp only [Bool.not_eq_true', Bool.not_eq_false, ne_eq, Decidable.not_not] at h1 h2 h3 h4
-                exact ⟨raw, v, hraw, hv, h1, h2, h3, h4, rfl⟩
-      · simp at hr
-  · rintro ⟨raw, v, hraw, hv, h1, h2, h3, h4, rfl⟩
-    simp [verifySafetyNet, hraw, hv, h1, h2, h3, run_sha256, ← h4]
+    Prog.run env (verifySafetyNet o h) = some res ↔ SafetyNetOK env o h res :=
+  JwsLemmas.verifySafetyNet_iff env o h res
 
 /-! ### tpm -/
 
